@@ -159,6 +159,12 @@ func genC02Proto(t *rapid.T) ProtoCase {
 		b, _ := json.Marshal(sp)
 		cc.Frames = append(cc.Frames, EncodeCall("x.y.M", b, more, false, false))
 	}
+	hangup := rapid.IntRange(0, 4).Draw(t, "hangup") == 0
+	if hangup {
+		// the stream ends with a frame that makes the service hang up: the calls in front of it are complete messages and are
+		// answered in full however the bytes are cut - also when they all arrive in the segment that carries the bad frame
+		cc.Frames = append(cc.Frames, Blob(rapid.SampledFrom([]string{`[1,2]`, `{"method":"x.y.M"}}`, `"x"`, `{"method":7}`}).Draw(t, "badframe")))
+	}
 	stream := cc.stream()
 	switch rapid.IntRange(0, 3).Draw(t, "cutsrc") {
 	case 0:
@@ -175,7 +181,7 @@ func genC02Proto(t *rapid.T) ProtoCase {
 		cc.PauseAt = rapid.IntRange(1, nseg).Draw(t, "pause_at")
 		cc.PauseMS = rapid.SampledFrom([]int{5, 120, 350}).Draw(t, "pause_ms")
 	}
-	if c.Transport == "unix" && rapid.Bool().Draw(t, "halfclose") {
+	if c.Transport == "unix" && !hangup && rapid.Bool().Draw(t, "halfclose") {
 		// the client shuts down its sending side right after the last byte and reads to EOF:
 		// everything it sent before is still a sequence of complete messages and is answered in full
 		cc.AbortAt = len(stream)
